@@ -328,12 +328,32 @@ MANDATORY = {
 }
 
 
+def resolve_body(ctx, fn, rx):
+    """`parent::{closure#N}` is looked up by content, not by number: the closure below `parent` that contains a call matching rx
+    (closure numbers shift whenever another closure is added to the function)"""
+    lib = ctx.lib
+    if fn.startswith('bin::'):
+        return ctx.bin.body(fn[5:]) if ctx.bin else None
+    m = re.match(r'^(.*?)::\{closure#\d+\}$', fn)
+    if not m:
+        return lib.body(fn)
+    parent = m.group(1)
+    exact = lib.body(fn)
+    if exact is not None and exact.calls(rx):
+        return exact
+    cands = [lib.body(c) for c in lib.closures_of(parent, recursive=False) if lib.body(c).calls(rx)]
+    if len(cands) == 1:
+        return cands[0]
+    cands = [lib.body(c) for c in lib.closures_of(parent) if lib.body(c).calls(rx)]
+    return cands[0] if len(cands) == 1 else exact
+
+
 def run_mandatory(ctx, prop):
     rule = '%s.M' % prop
     lib = ctx.lib
     n = 0
     for (fn, rx, occ, what, fields, calls) in MANDATORY.get(prop, []):
-        b = (ctx.bin.body(fn[5:]) if fn.startswith('bin::') and ctx.bin else lib.body(fn))
+        b = resolve_body(ctx, fn, rx)
         if b is None:
             ctx.missing(rule, 'fn ' + fn)
             continue
